@@ -679,6 +679,53 @@ func TestVerifC19(t *testing.T) {
 		}()
 	}
 
+	// ---- A7 (real time): Close while a request is being written to a regionserver that has stopped reading (the write
+	// does not return). Closing the socket is what ends such a write: Close must get there - it returns, with the writer
+	// still where it was.
+	for _, q := range []int{1, 3} {
+		func() {
+			name := fmt.Sprintf("A7/Close-while-a-write-to-the-server-is-stalled/queue=%d", q)
+			e := newC19Env(q)
+			hold, parked := make(chan struct{}), make(chan struct{})
+			var armed, once atomic.Bool
+			e.cl.Lock()
+			e.cl.ConnHook = func(op verifsim.Op) *verifsim.Fault {
+				if op.Kind == verifsim.OpWrite && armed.Load() && bytes.Contains(op.Data, []byte("a-stalled")) && once.CompareAndSwap(false, true) {
+					close(parked)
+					<-hold
+				}
+				return nil
+			}
+			e.cl.Unlock()
+			g, _ := hrpc.NewGet(context.Background(), []byte("t"), []byte("a1"))
+			e.c.Get(g)
+			armed.Store(true)
+			go func() {
+				g2, _ := hrpc.NewGet(context.Background(), []byte("t"), []byte("a-stalled"))
+				e.c.Get(g2)
+			}()
+			select {
+			case <-parked:
+			case <-time.After(5 * time.Second):
+				rep.bad("harness:c19-a7", "%s: the request's write was never seen", name)
+				close(hold)
+				e.c.Close()
+				return
+			}
+			closed := make(chan struct{})
+			go func() { e.c.Close(); close(closed) }()
+			select {
+			case <-closed:
+			case <-time.After(3 * time.Second):
+				rep.bad("close-blocked", "%s: Close has not returned after 3 s: it waits for a write that only closing the socket can end", name)
+			}
+			close(hold)
+			time.Sleep(200 * time.Millisecond)
+			rep.Scenarios++
+			rep.Distinct++
+		}()
+	}
+
 	// ---- B: Close at every hook position
 	for _, q := range []int{1, 5} {
 		ref := scenario(fmt.Sprintf("B/reference/q=%d", q), q, nil, func(e *c19Env, bus *hookBus) time.Time {
@@ -1048,6 +1095,95 @@ func TestVerifC20(t *testing.T) {
 			}
 			time.Sleep(time.Minute)
 			synctest.Wait()
+			ndj.Write(map[string]any{"ev": "reset", "scenario": name})
+			for _, e := range evs {
+				ndj.Write(e)
+			}
+			rep.Scenarios++
+			rep.Distinct++
+		})
+	}
+	// a server whose only known region has gone (its table was dropped) keeps a healthy connection without regions; then the
+	// connection of ANOTHER server fails; then a region of the first server is discovered: its connection is still the one
+	// connection of that server
+	for rep2 := 0; rep2 < 2; rep2++ {
+		name := fmt.Sprintf("server-without-regions-while-another-server-fails/%d", rep2)
+		verifsim.Bubble(t, func(t *testing.T) {
+			tr := &verifsim.Trace{}
+			cl := verifsim.NewCluster(tr)
+			for _, a := range []string{"ms", "rs1", "rs2"} {
+				cl.AddServer(a)
+			}
+			cl.CreateTable("t1", nil, []string{"rs1"})
+			cl.CreateTable("t2", nil, []string{"rs2"})
+			cl.CreateTable("t3", nil, []string{"rs1"})
+			var mu sync.Mutex
+			var evs []map[string]any
+			emit := func(e map[string]any) { mu.Lock(); evs = append(evs, e); mu.Unlock() }
+			simSetHook(func(point string, c any, arg any) {
+				if point == "clientDown.removed" {
+					if r, ok := arg.(hrpc.RegionInfo); ok {
+						addr := "rs1"
+						if bytes.HasPrefix(r.Name(), []byte("t2,")) {
+							addr = "rs2"
+						} else if bytes.HasPrefix(r.Name(), []byte("hbase:meta")) {
+							addr = "ms"
+						}
+						emit(map[string]any{"ev": "declaredDead", "addr": addr})
+					}
+				}
+			})
+			cl.DialHook = func(addr string) { emit(map[string]any{"ev": "dial", "addr": addr}) }
+			c := newSimClient(cl, RpcQueueSize(1+rep2*3))
+			get := func(table, k string) error {
+				ctx, cancel := context.WithTimeout(context.Background(), time.Minute)
+				defer cancel()
+				g, _ := hrpc.NewGet(ctx, []byte(table), []byte(k))
+				_, err := c.Get(g)
+				return err
+			}
+			quiesce := func() {
+				time.Sleep(200 * time.Millisecond)
+				synctest.Wait()
+				open := []map[string]any{}
+				for _, a := range []string{"ms", "rs1", "rs2"} {
+					open = append(open, map[string]any{"addr": a, "n": cl.OpenConns(a)})
+				}
+				emit(map[string]any{"ev": "quiesce", "open": open})
+			}
+			for _, tb := range []string{"t1", "t2"} {
+				if err := get(tb, "k"); err != nil {
+					rep.bad("request-failed", "%s: get on %s failed: %v", name, tb, err)
+				}
+			}
+			quiesce()
+			cl.DropTable("t1")
+			get("t1", "k") // not serving, looked up again: the table is gone - rs1's connection has no region left
+			quiesce()
+			cl.ResetConns("rs2")
+			time.Sleep(10 * time.Millisecond)
+			if err := get("t2", "k"); err != nil { // rs2's connection is declared dead and replaced
+				rep.bad("request-failed", "%s: get on t2 after the reset failed: %v", name, err)
+			}
+			quiesce()
+			if err := get("t3", "k"); err != nil { // a region of rs1 discovered later
+				rep.bad("request-failed", "%s: get on t3 failed: %v", name, err)
+			}
+			quiesce()
+			if n := cl.DialCount("rs1"); n != 1 {
+				rep.bad("dials-exceed", "%s: rs1 was dialled %d times although its connection never failed", name, n)
+			}
+			c.Close()
+			emit(map[string]any{"ev": "closeReturned"})
+			quiesce()
+			time.Sleep(2 * time.Minute)
+			synctest.Wait()
+			for _, a := range []string{"ms", "rs1", "rs2"} {
+				cl.ResetConns(a)
+			}
+			time.Sleep(time.Minute)
+			synctest.Wait()
+			simSetHook(nil)
 			ndj.Write(map[string]any{"ev": "reset", "scenario": name})
 			for _, e := range evs {
 				ndj.Write(e)
